@@ -1,0 +1,305 @@
+//! Verification seam, compiled only with the cargo feature `verif` (off by default).
+//!
+//! It puts the two sources of nondeterminism this crate has behind types an external
+//! simulator can own:
+//!
+//! * `Mutex` / `MutexGuard`: a thin wrapper around `std::sync::Mutex` that reports
+//!   "about to lock", "locked" and "unlocked" to an installed [`Hooks`] object. The real
+//!   std mutex is still what is locked and unlocked, so poisoning is std's own behaviour.
+//! * `HashMap`: a thin wrapper around `std::collections::HashMap` whose hasher is keyed
+//!   by a settable seed instead of the per-process `RandomState`, so iteration order is
+//!   a function of that seed.
+//!
+//! With no hooks installed every call is a plain pass-through. No scheduling logic
+//! lives here.
+
+use std::fmt::{Debug, Formatter};
+use std::hash::{BuildHasher, Hash};
+use std::ops::{Deref, DerefMut};
+use std::sync::atomic::{AtomicU64, Ordering};
+use std::sync::{LockResult, OnceLock, PoisonError, TryLockError, TryLockResult};
+
+pub use std::sync::Arc;
+
+/// Callbacks of an external scheduler. `addr` identifies the mutex.
+pub trait Hooks: Send + Sync {
+  /// Called before the real `lock()`; may park the calling thread. When it returns, the
+  /// real mutex must be free (or the caller accepts really blocking on it).
+  fn before_lock(&self, addr: usize);
+  /// Called before a real `try_lock()`; a scheduling point only.
+  fn before_try_lock(&self, addr: usize);
+  /// Called once the real mutex is held by the calling thread.
+  fn acquired(&self, addr: usize, poisoned: bool);
+  /// Called after the real guard has been dropped (possibly while unwinding).
+  fn after_unlock(&self, addr: usize, panicking: bool);
+}
+
+static HOOKS: OnceLock<Box<dyn Hooks>> = OnceLock::new();
+
+/// Install the hooks (once per process). Returns false if hooks were already installed.
+pub fn install(hooks: Box<dyn Hooks>) -> bool {
+  HOOKS.set(hooks).is_ok()
+}
+
+#[inline]
+fn hooks() -> Option<&'static dyn Hooks> {
+  HOOKS.get().map(|h| h.as_ref())
+}
+
+pub struct Mutex<T: ?Sized> {
+  inner: std::sync::Mutex<T>,
+}
+
+pub struct MutexGuard<'a, T: ?Sized + 'a> {
+  inner: Option<std::sync::MutexGuard<'a, T>>,
+  addr: usize,
+}
+
+impl<T> Mutex<T> {
+  pub fn new(t: T) -> Self {
+    Self { inner: std::sync::Mutex::new(t) }
+  }
+
+  pub fn into_inner(self) -> LockResult<T> {
+    self.inner.into_inner()
+  }
+}
+
+impl<T: ?Sized> Mutex<T> {
+  fn addr(&self) -> usize {
+    &self.inner as *const std::sync::Mutex<T> as *const () as usize
+  }
+
+  pub fn lock(&self) -> LockResult<MutexGuard<'_, T>> {
+    let addr: usize = self.addr();
+    if let Some(h) = hooks() {
+      h.before_lock(addr);
+    }
+    match self.inner.lock() {
+      Ok(g) => {
+        if let Some(h) = hooks() {
+          h.acquired(addr, false);
+        }
+        Ok(MutexGuard { inner: Some(g), addr })
+      }
+      Err(e) => {
+        if let Some(h) = hooks() {
+          h.acquired(addr, true);
+        }
+        Err(PoisonError::new(MutexGuard { inner: Some(e.into_inner()), addr }))
+      }
+    }
+  }
+
+  pub fn try_lock(&self) -> TryLockResult<MutexGuard<'_, T>> {
+    let addr: usize = self.addr();
+    if let Some(h) = hooks() {
+      h.before_try_lock(addr);
+    }
+    match self.inner.try_lock() {
+      Ok(g) => {
+        if let Some(h) = hooks() {
+          h.acquired(addr, false);
+        }
+        Ok(MutexGuard { inner: Some(g), addr })
+      }
+      Err(TryLockError::Poisoned(e)) => {
+        if let Some(h) = hooks() {
+          h.acquired(addr, true);
+        }
+        Err(TryLockError::Poisoned(PoisonError::new(MutexGuard { inner: Some(e.into_inner()), addr })))
+      }
+      Err(TryLockError::WouldBlock) => Err(TryLockError::WouldBlock),
+    }
+  }
+
+  pub fn is_poisoned(&self) -> bool {
+    self.inner.is_poisoned()
+  }
+
+  pub fn clear_poison(&self) {
+    self.inner.clear_poison()
+  }
+
+  pub fn get_mut(&mut self) -> LockResult<&mut T> {
+    self.inner.get_mut()
+  }
+}
+
+impl<T: Default> Default for Mutex<T> {
+  fn default() -> Self {
+    Self::new(T::default())
+  }
+}
+
+impl<T: ?Sized + Debug> Debug for Mutex<T> {
+  fn fmt(&self, f: &mut Formatter<'_>) -> std::fmt::Result {
+    self.inner.fmt(f)
+  }
+}
+
+impl<'a, T: ?Sized> Deref for MutexGuard<'a, T> {
+  type Target = T;
+  fn deref(&self) -> &T {
+    self.inner.as_ref().unwrap()
+  }
+}
+
+impl<'a, T: ?Sized> DerefMut for MutexGuard<'a, T> {
+  fn deref_mut(&mut self) -> &mut T {
+    self.inner.as_mut().unwrap()
+  }
+}
+
+impl<'a, T: ?Sized> Drop for MutexGuard<'a, T> {
+  fn drop(&mut self) {
+    let panicking: bool = std::thread::panicking();
+    // the real guard goes first: poisoning on unwind is std's, not a model of it
+    drop(self.inner.take());
+    if let Some(h) = hooks() {
+      h.after_unlock(self.addr, panicking);
+    }
+  }
+}
+
+impl<'a, T: ?Sized + Debug> Debug for MutexGuard<'a, T> {
+  fn fmt(&self, f: &mut Formatter<'_>) -> std::fmt::Result {
+    (**self).fmt(f)
+  }
+}
+
+static HASH_SEED: AtomicU64 = AtomicU64::new(0);
+
+/// Seed used by every `HashMap` built or cloned from now on.
+pub fn set_hash_seed(seed: u64) {
+  HASH_SEED.store(seed, Ordering::SeqCst);
+}
+
+pub fn hash_seed() -> u64 {
+  HASH_SEED.load(Ordering::SeqCst)
+}
+
+#[derive(Clone, Debug)]
+pub struct SeededState {
+  k0: u64,
+  k1: u64,
+}
+
+impl SeededState {
+  pub fn new() -> Self {
+    let s: u64 = hash_seed();
+    Self { k0: s ^ 0x736f6d6570736575, k1: s.rotate_left(32) ^ 0x646f72616e646f6d }
+  }
+}
+
+impl Default for SeededState {
+  fn default() -> Self {
+    Self::new()
+  }
+}
+
+impl BuildHasher for SeededState {
+  #[allow(deprecated)]
+  type Hasher = std::hash::SipHasher;
+
+  #[allow(deprecated)]
+  fn build_hasher(&self) -> Self::Hasher {
+    std::hash::SipHasher::new_with_keys(self.k0, self.k1)
+  }
+}
+
+/// `std::collections::HashMap` with a seed-keyed hasher. A clone is rebuilt under the
+/// seed current at the time of the clone (std makes no promise that a clone iterates in
+/// the order of its original).
+pub struct HashMap<K, V>(std::collections::HashMap<K, V, SeededState>);
+
+impl<K, V> HashMap<K, V> {
+  pub fn new() -> Self {
+    Self(std::collections::HashMap::with_hasher(SeededState::new()))
+  }
+
+  pub fn with_capacity(capacity: usize) -> Self {
+    Self(std::collections::HashMap::with_capacity_and_hasher(capacity, SeededState::new()))
+  }
+}
+
+impl<K, V> Default for HashMap<K, V> {
+  fn default() -> Self {
+    Self::new()
+  }
+}
+
+impl<K, V> Deref for HashMap<K, V> {
+  type Target = std::collections::HashMap<K, V, SeededState>;
+  fn deref(&self) -> &Self::Target {
+    &self.0
+  }
+}
+
+impl<K, V> DerefMut for HashMap<K, V> {
+  fn deref_mut(&mut self) -> &mut Self::Target {
+    &mut self.0
+  }
+}
+
+impl<K: Eq + Hash + Clone, V: Clone> Clone for HashMap<K, V> {
+  fn clone(&self) -> Self {
+    let mut m: Self = Self::with_capacity(self.0.len());
+    for (k, v) in self.0.iter() {
+      m.0.insert(k.clone(), v.clone());
+    }
+    m
+  }
+}
+
+impl<K: Debug, V: Debug> Debug for HashMap<K, V> {
+  fn fmt(&self, f: &mut Formatter<'_>) -> std::fmt::Result {
+    self.0.fmt(f)
+  }
+}
+
+impl<K: Eq + Hash, V: PartialEq> PartialEq for HashMap<K, V> {
+  fn eq(&self, other: &Self) -> bool {
+    self.0 == other.0
+  }
+}
+
+impl<K, V> IntoIterator for HashMap<K, V> {
+  type Item = (K, V);
+  type IntoIter = std::collections::hash_map::IntoIter<K, V>;
+  fn into_iter(self) -> Self::IntoIter {
+    self.0.into_iter()
+  }
+}
+
+impl<'a, K, V> IntoIterator for &'a HashMap<K, V> {
+  type Item = (&'a K, &'a V);
+  type IntoIter = std::collections::hash_map::Iter<'a, K, V>;
+  fn into_iter(self) -> Self::IntoIter {
+    self.0.iter()
+  }
+}
+
+impl<'a, K, V> IntoIterator for &'a mut HashMap<K, V> {
+  type Item = (&'a K, &'a mut V);
+  type IntoIter = std::collections::hash_map::IterMut<'a, K, V>;
+  fn into_iter(self) -> Self::IntoIter {
+    self.0.iter_mut()
+  }
+}
+
+impl<K: Eq + Hash, V> FromIterator<(K, V)> for HashMap<K, V> {
+  fn from_iter<I: IntoIterator<Item = (K, V)>>(iter: I) -> Self {
+    let mut m: Self = Self::new();
+    for (k, v) in iter {
+      m.0.insert(k, v);
+    }
+    m
+  }
+}
+
+impl<K: Eq + Hash, V> Extend<(K, V)> for HashMap<K, V> {
+  fn extend<I: IntoIterator<Item = (K, V)>>(&mut self, iter: I) {
+    self.0.extend(iter)
+  }
+}
